@@ -358,7 +358,36 @@ def rules(ctx, tier):
                    "and silently serves a state that lacks even the undamaged records of that segment")
     if x is not None:
         out.append(x)
+    out.append(open_path_total(ctx, "R8"))
     return out
+
+
+def open_path_total(ctx, rid):
+    """"Never panics": the code that runs only while opening (discovery, replay, loaders - not the replay callback,
+    which is the live apply step) has no reachable panic source other than a counter overflow: no division or remainder
+    by a value not shown non-zero, no unchecked index, no unwrap/expect (reviewed producers excepted).  The byte
+    decoders and the segment reader themselves are C16-R1's."""
+    from . import c02
+    prog = ctx.prog
+    r = Rule(rid, "the open path cannot panic on what it finds on disk: no division, index or unwrap on a value derived "
+                  "from the log or its size outside the decoders (those are C16-R1's)",
+             "a log cut inside the first header of a segment yields a non-empty segment with zero records; the per-segment "
+             "statistics line divides by the record count and `open` panics instead of returning the prefix state")
+    openr = prog.reachable_bodies(ctx.open_roots())
+    live = prog.reachable_bodies(ctx.live_roots())
+    cbreach = prog.reachable_bodies(c02.replay_callbacks(ctx))
+    bodies = [prog.bodies[p] for p in sorted(openr) if p not in live and p not in cbreach]
+    n = 0
+    for (site, what, ok, why) in c16.panic_sources(ctx, bodies, follow=False):
+        if what.startswith("assert:Overflow"):
+            continue        # (a 64-bit counter advanced once per record)
+        n += 1
+        r.check(ok, "panic:%s" % what, site.body, "%s at %s discharged: %s" % (what, site_where(site), why),
+                "%s at %s can panic while the database is being opened: %s" % (what, site_where(site), why),
+                site_where(site))
+    r.ok("scan", None, "%d bodies run only while opening; %d panic source(s) looked at" % (len(bodies), n))
+    r.need(2, "open-only bodies scanned")
+    return r.finish()
 
 
 def end_of_log_rule(ctx, rid):
